@@ -56,6 +56,14 @@ CLAIMED = {
                      "objectives are non-negative.",
                 note=TRUST + " Real arithmetic and elementary-function axioms (A1, A5); frame axioms of recursive spec functions by induction (trusted).",
                 tech="deductive verification: telescoping loop invariants over recursive spec functions, polynomial lemmas by nlsat (pyvc/z3)"),
+    "C17": dict(cat="proof", ref="5/C17",
+                text="The additive epsilon indicator is proved to be the non-negative max-min-max of coordinate differences (with the "
+                     "identical-set and shifted-set corollaries as lemmas); population queries return exactly the recorded individuals "
+                     "with the tag in recording order (ghost index witness), the default being the largest tag; find_optimum returns a "
+                     "recorded individual that is minimal (maximal for a maximised goal); unsorted goal/parameter listings keep each "
+                     "individual's values paired. gd() and the sorted listings are bounded / not covered.",
+                note=TRUST + " goal_index/parameter_index are assumed contracts; gd is a bounded run-time check only.",
+                tech="deductive verification: quantified postconditions with ghost witness sequences; extended reals for inf (pyvc/z3)"),
     "C18": dict(cat="proof", ref="5/C18",
                 text="Personal-best update, velocity clamp (speed_constriction and both update_velocity variants), the three "
                      "update_position variants and the three select_leader variants are verified for swarms of any size and dimension: "
